@@ -1286,7 +1286,10 @@ class StmtMixin(object):
     def feasible(self, st, full=False):
         """path pruning: False only when the path condition is refuted.  Quantified hypotheses (axioms, invariants) are left out
         unless full=True: leaving hypotheses out can only keep more paths (sound), and keeps these checks fast."""
-        s = z3.Solver(); s.set('timeout', 2000 if not full else 1500)
+        # (the full checks are vacuity guards at loops and at the precondition: the first few of a run get 1.5 s, later ones 400 ms --
+        #  a function with many paths otherwise spends minutes re-confirming that the same invariant is not contradictory)
+        self._n_full = getattr(self, '_n_full', 0) + (1 if full else 0)
+        s = z3.Solver(); s.set('timeout', 2000 if not full else (1500 if self._n_full <= 8 else 400))
         from .solve import guarded
         s.add(*guarded([f for f in st.pc if full or not _has_quantifier(f)]))      # (no sequences of sequences in queries: pyvc/unnest.py)
         return s.check() != z3.unsat
